@@ -193,7 +193,9 @@ def shortest_torus_path(source, destination, width, height):
                   (max(w-dx, h-dy), (-(w-dx), -(h-dy), 0))]  # Wrap X and Y
 
     # Select a minimal approach at random
-    _, vector = min(approaches, key=(lambda a: a[0]+random.random()))
+    # NB: The tie-break must not be *added* to the distance: in floating point
+    # d + random() can round up to d + 1 and tie with a longer approach.
+    _, vector = min(approaches, key=(lambda a: (a[0], random.random())))
     x, y, z = minimise_xyz(vector)
 
     # Transform to include a random number of 'spirals' on Z axis where
